@@ -703,6 +703,127 @@ func reconnectUnderLoad(seed int64, G int, procs int) {
 	}
 }
 
+// staleAck: an acknowledgement that is still waiting to be handed to a sender
+// when the connection ends must not be taken for the acknowledgement of a
+// request of the next connection. One Send (number 0) is acknowledged, copies
+// of that acknowledgement are delivered again (they wait up to one resend
+// interval for a sender), the gateway ends the connection (disconnect request
+// or failed heartbeat), the client reconnects on a new channel, and the first
+// Send there - number 0 again - gets no acknowledgement at all: it has to time
+// out. Judged by the general sender checker (success needs an acknowledgement
+// carrying the Send's own channel).
+func staleAck(seed int64, how string, copies int, procs int) {
+	runtime.GOMAXPROCS(procs)
+	sig := fmt.Sprintf("stale-ack how=%s copies=%d procs=%d seed=%d", how, copies, procs, seed)
+	r.Crumb("C03 %s", sig)
+	R, T := 5*time.Millisecond, 40*time.Millisecond
+	s := memsock.New("udp")
+	var muted atomic.Bool
+	gw := gateway.NewGateway(s, func(dir string, p spec.Parsed, nth int) gateway.Action {
+		if muted.Load() && dir == "g2c" && p.Service == spec.SvcTunnelRes {
+			return gateway.Action{Drop: true}
+		}
+		return gateway.Action{}
+	})
+	c0 := cfg(R, T, false)
+	if how == "hb" {
+		c0.HeartbeatInterval = 3 * time.Millisecond
+	}
+	c, err := tun.Start(s, c0)
+	if err != nil {
+		r.Inconclusive(sig + ": connect failed: " + err.Error())
+		return
+	}
+	can := mon.StartCanary()
+	c.Send(0, 1)
+	ch1 := gw.Channel()
+	from := s.Len()
+	for i := 0; i < copies; i++ {
+		s.Deliver(&knxnet.TunnelRes{Channel: ch1, SeqNumber: 0})
+	}
+	ep := gw.Epoch()
+	if how == "disc" {
+		gw.Disconnect()
+	} else {
+		gw.FailNextHeartbeat()
+	}
+	dl := time.Now().Add(5 * time.Second)
+	b := -1
+	for b < 0 && time.Now().Before(dl) {
+		if gw.Epoch() > ep {
+			for _, e := range s.LogFrom(from) {
+				if e.Kind == memsock.Rx && e.Taken && e.P.Service == spec.SvcConnRes && e.P.Status == 0 {
+					b = e.Idx
+				}
+			}
+		}
+		if b < 0 {
+			time.Sleep(50 * time.Microsecond)
+		}
+	}
+	if b < 0 {
+		r.Violate("reconnect.no-connect-response-taken", nil, map[string]interface{}{"signature": sig}, "[stale-ack] the client did not reconnect after the gateway ended the connection (%s)", how)
+		return
+	}
+	muted.Store(true)
+	c.Send(0, 2) // no acknowledgement will come: must not succeed
+	muted.Store(false)
+	c.Send(0, 3) // healthy again
+	gw.Flush()
+	s.Quiesce(time.Second)
+	stall := can.Stop()
+	c.T.Close()
+	r.Eval(1)
+	r.DistinctStr(sig)
+	faultsSeen["stale-acknowledgements-across-reconnect"] += int64(copies)
+	if stall > 250*time.Millisecond {
+		r.Inconclusive(sig + ": scheduler stall")
+		return
+	}
+	report("stale-ack", sig, s.Log(), tun.Params{Resend: R, Timeout: T, Slack: 3*stall + 20*time.Millisecond, Boundaries: []int{b}}, nil)
+}
+
+// slowResend: a legal but unusual configuration, resend interval longer than
+// the response timeout. Nothing is ever retransmitted; an unacknowledged Send
+// still has to return at the response timeout, an acknowledged one at once.
+func slowResend(seed int64, procs int) {
+	runtime.GOMAXPROCS(procs)
+	R, T := 200*time.Millisecond, time.Duration(15+seed%3*10)*time.Millisecond
+	sig := fmt.Sprintf("resend-longer-than-timeout R=%v T=%v procs=%d seed=%d", R, T, procs, seed)
+	r.Crumb("C03 %s", sig)
+	s := memsock.New("udp")
+	var muted atomic.Bool
+	gw := gateway.NewGateway(s, func(dir string, p spec.Parsed, nth int) gateway.Action {
+		if muted.Load() && dir == "g2c" && p.Service == spec.SvcTunnelRes {
+			return gateway.Action{Drop: true}
+		}
+		return gateway.Action{}
+	})
+	c, err := tun.Start(s, cfg(R, T, false))
+	if err != nil {
+		r.Inconclusive(sig + ": connect failed: " + err.Error())
+		return
+	}
+	can := mon.StartCanary()
+	for i := 0; i < 6; i++ {
+		muted.Store(i%2 == 1)
+		c.Send(0, uint32(i+1))
+	}
+	muted.Store(false)
+	gw.Flush()
+	s.Quiesce(time.Second)
+	stall := can.Stop()
+	c.T.Close()
+	r.Eval(1)
+	r.DistinctStr(sig)
+	faultsSeen["sends-with-resend-interval-above-timeout"] += 6
+	if stall > 100*time.Millisecond {
+		r.Inconclusive(sig + ": scheduler stall")
+		return
+	}
+	report("resend-longer-than-timeout", sig, s.Log(), tun.Params{Resend: R, Timeout: T, Slack: 3*stall + 20*time.Millisecond}, nil)
+}
+
 func excerptTail(log []memsock.Event, from int) []string {
 	var out []string
 	for _, e := range log[from:] {
@@ -716,7 +837,7 @@ func excerptTail(log []memsock.Event, from int) []string {
 
 func run(rr *mon.Run) {
 	r = rr
-	r.Rule("executions of the real tunnel client on an in-memory socket: lossy (random loss/duplication/hold-back on both directions, 1..8 senders, 600 Sends), scripted (10 acknowledgement behaviours placed per telegram), tcp, reconnect (4 phases, new or re-used channel id). Distinct = distinct (workload, senders, intervals, GOMAXPROCS, seed) signatures in which at least one fault / scripted behaviour / reconnect actually occurred; interleavings = distinct sender-goroutine orders of the blocks on the wire")
+	r.Rule("executions of the real tunnel client on an in-memory socket: lossy (random loss/duplication/hold-back on both directions, 1..8 senders, 600 Sends), scripted (10 acknowledgement behaviours placed per telegram), tcp, reconnect (4 phases, new or re-used channel id), reconnect under load, stale-ack (acknowledgements of the previous connection still waiting when the next one starts), resend interval longer than the response timeout. Distinct = distinct (workload, senders, intervals, GOMAXPROCS, seed) signatures in which at least one fault / scripted behaviour / reconnect actually occurred; interleavings = distinct sender-goroutine orders of the blocks on the wire")
 	defer runtime.GOMAXPROCS(runtime.NumCPU())
 	seed := r.Seed()
 	procsList := []int{1, 2, 4, 16}
@@ -745,6 +866,10 @@ func run(rr *mon.Run) {
 	}
 	for i := 0; i < nRecon && !r.Enough(); i++ {
 		reconnect(seed*4000+int64(i), i%2 == 0, procsList[(i+3)%4])
+		slowResend(seed*4200+int64(i), procsList[i%4])
+		for k := 0; k < 4; k++ {
+			staleAck(seed*4100+int64(i*4+k), []string{"disc", "hb"}[k%2], 1+k/2, procsList[(i+k)%4])
+		}
 	}
 	r.Observe("sends", totalSends)
 	r.Observe("tunnelling_requests_on_the_wire", totalFrames)
